@@ -15,6 +15,7 @@
 EXTENDS JtDims
 
 NoVal == -1000000       \* "cannot be evaluated: a name is not bound"
+Frac == -999999         \* "a value that is not an integer": equals no size (true division is only used outermost)
 NoLabel == ""           \* no '?'-leaf position is current
 
 Bind(f, k, v) == [x \in DOMAIN f \cup {k} |-> IF x = k THEN v ELSE f[x]]
@@ -23,6 +24,7 @@ Memo(s, v) == [single |-> s, variadic |-> v]
 EmptyMemo == Memo(EmptyFn, EmptyFn)
 
 (* ---- symbolic expressions: trees <<op, x, y>>, <<"i", k>>, <<"n", axis>>, <<"a", arg>> ---- *)
+(* op \in + - * // / min max                                                                   *)
 Min(a, b) == IF a <= b THEN a ELSE b
 Max(a, b) == IF a >= b THEN a ELSE b
 RECURSIVE Eval(_, _, _)
@@ -38,6 +40,7 @@ Eval(e, single, args) ==
                  [] e[1] = "-" -> x - y
                  [] e[1] = "*" -> x * y
                  [] e[1] = "//" -> x \div y
+                 [] e[1] = "/" -> IF x % y = 0 THEN x \div y ELSE Frac        \* true division (divisor a positive literal)
                  [] e[1] = "min" -> Min(x, y)
                  [] e[1] = "max" -> Max(x, y)
 
